@@ -115,7 +115,11 @@ def tiny_copy_big_gradient_set(r, vb=1000):
         ang = r.uniform(0, 3.14)
         grad = f'<linearGradient id="tg" gradientUnits="userSpaceOnUse" x1="{qx - L_ * math.cos(ang):.3f}" y1="{qy - L_ * math.sin(ang):.3f}" x2="{qx + L_ * math.cos(ang):.3f}" y2="{qy + L_ * math.sin(ang):.3f}">{stops}</linearGradient>'
     else:
-        rad = vb * r.uniform(0.6, 2.0)
+        if kind == "radial-elliptical":
+            sc = r.choice([64.0, 80.0])
+            small = [(qx + (x - cx) / sc, qy + (y - cy) / sc) for x, y in base]
+            d1 = "M" + " L".join(f"{x:.4f},{y:.4f}" for x, y in small) + " Z"
+        rad = vb * r.uniform(0.9 if kind == "radial-elliptical" else 0.6, 2.0)
         gx, gy = qx + vb * r.uniform(-0.2, 0.2), qy + vb * r.uniform(-0.2, 0.2)
         gt = ""
         if kind == "radial-elliptical":
